@@ -408,7 +408,7 @@ class Linearity(Rule):
                     return e
             elif e.is_limit():
                 if e.body.is_uminus():
-                    return -Limit(e.var, e.lim, e.body.args[0])
+                    return -Limit(e.var, e.lim, e.body.args[0], e.drt)
                 elif e.body.is_times() or e.body.is_divides():
                     num_factors, denom_factors = decompose_expr_factor(e.body)
                     b, c = Const(1), Const(1)
